@@ -59,6 +59,126 @@ func simpleDefault(r *vl.Rng, t *idlgen.Type) *idlgen.Const {
 	return nil
 }
 
+// defaultFor returns a literal for base types AND for containers of base types (nil when the type gets none).
+func defaultFor(r *vl.Rng, t *idlgen.Type) *idlgen.Const {
+	switch t.Kind {
+	case idlgen.List, idlgen.Set:
+		if t.Elem.Kind > idlgen.String || t.Elem.Kind == idlgen.Bool || t.Elem.Kind == idlgen.Double {
+			return nil
+		}
+		a, b := simpleDefault(r, t.Elem), simpleDefault(r, t.Elem)
+		if t.Elem.Kind == idlgen.String {
+			b = &idlgen.Const{Kind: idlgen.CString, Text: "zz", Quote: '"', Val: values.Str("zz")}
+		} else {
+			n := a.Val.I + 1
+			b = &idlgen.Const{Kind: idlgen.CInt, Text: fmt.Sprint(n), Val: values.Int(n)}
+		}
+		k := values.KList
+		if t.Kind == idlgen.Set {
+			k = values.KSet
+		}
+		return &idlgen.Const{Kind: idlgen.CList, Sep: ",", Items: []*idlgen.Const{a, b}, Val: &values.Value{K: byte(k), E: []*values.Value{a.Val, b.Val}}}
+	case idlgen.Map:
+		if t.Key.Kind != idlgen.String && t.Key.Kind != idlgen.I32 {
+			return nil
+		}
+		if t.Elem.Kind > idlgen.String || t.Elem.Kind == idlgen.Bool || t.Elem.Kind == idlgen.Double {
+			return nil
+		}
+		k, v := simpleDefault(r, t.Key), simpleDefault(r, t.Elem)
+		return &idlgen.Const{Kind: idlgen.CMap, Sep: ",", Items: []*idlgen.Const{k, v}, Val: values.Map(k.Val, v.Val)}
+	}
+	return simpleDefault(r, t)
+}
+
+// defaultTypes are the types of the fields WITH declared defaults that are added to structs reached through
+// containers: base types, string, containers of them.
+func defaultTypes() []*idlgen.Type {
+	return []*idlgen.Type{base(idlgen.Bool), base(idlgen.Byte), base(idlgen.I16), base(idlgen.I32), base(idlgen.I64), base(idlgen.String),
+		{Kind: idlgen.List, Elem: base(idlgen.I32)}, {Kind: idlgen.List, Elem: base(idlgen.String)}, {Kind: idlgen.Set, Elem: base(idlgen.I64)},
+		{Kind: idlgen.Map, Key: base(idlgen.String), Elem: base(idlgen.I32)}, {Kind: idlgen.Map, Key: base(idlgen.I32), Elem: base(idlgen.String)}}
+}
+
+// addHolders makes sure the OLD program reaches a struct through set<Struct>, list<Struct> and map<_,Struct>:
+// it picks a struct/exception T of some file and gives a struct H of the same file three optional fields of
+// these types (both versions of the pair have them; the evolution then happens INSIDE the containers).
+func addHolders(r *vl.Rng, p *idlgen.Program, count func(string)) {
+	for fi, f := range p.Files {
+		var ts, hs []*idlgen.Struct
+		for _, st := range f.Structs {
+			if st.Kind != 'u' {
+				ts = append(ts, st)
+				hs = append(hs, st)
+			}
+		}
+		if len(ts) == 0 {
+			continue
+		}
+		t, h := ts[r.Intn(len(ts))], hs[r.Intn(len(hs))]
+		named := &idlgen.Type{Kind: idlgen.Named, Named: &idlgen.NamedRef{File: fi, Name: t.Name}}
+		used := map[int16]bool{}
+		for _, fd := range h.Fields {
+			used[fd.ID] = true
+		}
+		id := int16(400 + r.Intn(100))
+		for i, ty := range []*idlgen.Type{{Kind: idlgen.Set, Elem: named}, {Kind: idlgen.List, Elem: named}, {Kind: idlgen.Map, Key: base(idlgen.I32), Elem: named}} {
+			for used[id] {
+				id++
+			}
+			used[id] = true
+			h.Fields = append(h.Fields, &idlgen.Field{ID: id, HasID: true, Name: fmt.Sprintf("xhold%d", i), Req: idlgen.Optional, Type: ty})
+		}
+		count("prep.holders")
+		return
+	}
+}
+
+// elemStructs lists the struct-likes that occur as element / value of a container somewhere in the program.
+func elemStructs(p *idlgen.Program) map[[2]int]bool {
+	out := map[[2]int]bool{}
+	var walk func(t *idlgen.Type, inCont bool)
+	walk = func(t *idlgen.Type, inCont bool) {
+		switch t.Kind {
+		case idlgen.List, idlgen.Set:
+			walk(t.Elem, true)
+		case idlgen.Map:
+			walk(t.Key, true)
+			walk(t.Elem, true)
+		case idlgen.Named:
+			if !inCont {
+				return
+			}
+			for si, st := range p.Files[t.Named.File].Structs {
+				if st.Name == t.Named.Name {
+					out[[2]int{t.Named.File, si}] = true
+				}
+			}
+		}
+	}
+	for _, f := range p.Files {
+		for _, st := range f.Structs {
+			for _, fd := range st.Fields {
+				walk(fd.Type, false)
+			}
+		}
+	}
+	return out
+}
+
+// elemStructsList is elemStructs in a deterministic order.
+func elemStructsList(p *idlgen.Program) [][2]int {
+	m := elemStructs(p)
+	var out [][2]int
+	for fi, f := range p.Files {
+		for si := range f.Structs {
+			if m[[2]int{fi, si}] {
+				out = append(out, [2]int{fi, si})
+			}
+		}
+	}
+	return out
+}
+
 // typePool lists type expressions usable for a new field of file fi: base types, containers of them, and
 // every type expression some field of the same file already uses (so named structs, unions, enums,
 // typedefs and cross-file references come along, already in scope).
@@ -72,9 +192,7 @@ func typePool(p *idlgen.Program, fi int) []*idlgen.Type {
 	for _, st := range p.Files[fi].Structs {
 		for _, f := range st.Fields {
 			pool = append(pool, f.Type)
-			if f.Type.Kind != idlgen.Map || true {
-				pool = append(pool, &idlgen.Type{Kind: idlgen.List, Elem: f.Type})
-			}
+			pool = append(pool, &idlgen.Type{Kind: idlgen.List, Elem: f.Type})
 		}
 	}
 	return pool
@@ -97,6 +215,35 @@ func evolve(r *vl.Rng, old *idlgen.Program, n int, count func(string)) (*idlgen.
 		}
 	}
 	fresh := 0
+	// nested evolution inside containers: every struct reached as a container element gets 1–3 fields WITH
+	// declared defaults (the new code reading old data must give them these defaults in every element)
+	for _, key := range elemStructsList(p) {
+		st := p.Files[key[0]].Structs[key[1]]
+		if st.Kind == 'u' {
+			continue
+		}
+		used := map[int16]bool{}
+		for _, f := range st.Fields {
+			used[f.ID] = true
+		}
+		dts := defaultTypes()
+		for j := 0; j < 1+r.Intn(3); j++ {
+			t := dts[r.Intn(len(dts))]
+			id := int16(100 + r.Intn(200))
+			for used[id] {
+				id++
+			}
+			used[id] = true
+			fd := &idlgen.Field{ID: id, HasID: true, Name: fmt.Sprintf("xdef%d", fresh), Type: t, Req: idlgen.Default, Default: defaultFor(r, t)}
+			fresh++
+			if t.Kind <= idlgen.String && r.Chance(40) {
+				fd.Req = idlgen.Optional
+			}
+			st.Fields = append(st.Fields, fd)
+			edits = append(edits, edit{"field-with-default-in-container-element", key[0], st.Name, fmt.Sprintf("%d: %s %s = %s", id, fd.Req.Letter(), fd.Name, fd.Default.String())})
+			count("edit.field-with-default-in-container-element")
+		}
+	}
 	for k := 0; k < n; k++ {
 		if len(enums) > 0 && r.Chance(15) {
 			e := enums[r.Intn(len(enums))]
